@@ -17,6 +17,7 @@ class Collector:
         self.failures = []
         self.samples = []
         self.exhaustive = False
+        self.last_failure = None
 
     def case(self, case_id, ok, detail=None, nontrivial=True, sample=None, inputs=None):
         self.evaluations += 1
@@ -26,9 +27,14 @@ class Collector:
             self.samples.append(sample)
         elif len(self.samples) < 4:
             self.samples.append({"case": case_id})
+        self.last_failure = None
         if not ok:
-            if len(self.failures) < 40:
-                self.failures.append({"case_id": case_id, "detail": detail, "input": inputs})
+            rec = {"case_id": case_id, "detail": detail, "input": inputs}
+            # keep at most 3 records per case id and 60 overall, so that one recorded finding cannot crowd out a new failure
+            same = sum(1 for f in self.failures if f["case_id"].split(":known")[0] == case_id)
+            if same < 3 and len(self.failures) < 60:
+                self.failures.append(rec)
+            self.last_failure = rec      # drivers may re-label it (":known-..." suffix); a dropped record is simply not reported
         return ok
 
     def check(self, case_id, fn, nontrivial=True, sample=None, inputs=None):
